@@ -31,6 +31,8 @@ def rand_network(rng):
             nodes[(i, j)] = (round(i * step + jit(), 3), round(j * step + jit(), 3))
     edges = []
     def add(a, b):
+        if rng.random() < 0.4:                                           # stored from east to west / north to south as often as the other way
+            a, b = b, a
         pa, pb = nodes[a], nodes[b]
         geom = [pa]
         for _ in range(rng.choice([0, 0, 1, 2])):                       # intermediate vertices, off the straight line or on it
